@@ -512,7 +512,7 @@ func drawPeerValid(t *rapid.T) peerCase {
 
 // TestC08_PeerPoints: valid peer points of remarkable shape, one-sided.
 func TestC08_PeerPoints(t *testing.T) {
-	h.Prop(t, h.P{Name: "peer-points", Quick: 700, Thorough: 30000, Journal: true}, drawPeerValid, checkPeer)
+	h.Prop(t, h.P{Name: "peer-points", Quick: 600, Thorough: 15000, Journal: true}, drawPeerValid, checkPeer)
 }
 
 // invalidCoords produces an invalid coordinate pair of the named kind from a
@@ -613,7 +613,7 @@ func drawPeerInvalid(t *rapid.T) peerCase {
 
 // TestC08_InvalidPeer: peer points that are not points of the curve.
 func TestC08_InvalidPeer(t *testing.T) {
-	h.Prop(t, h.P{Name: "invalid-peer", Quick: 1500, Thorough: 40000, Journal: true}, drawPeerInvalid, func(c peerCase, r *h.Rec) error {
+	h.Prop(t, h.P{Name: "invalid-peer", Quick: 1000, Thorough: 20000, Journal: true}, drawPeerInvalid, func(c peerCase, r *h.Rec) error {
 		// the generator must really have produced an invalid point
 		_, pOK := validCoords(c.PX, c.PY, false, false)
 		_, rOK := validCoords(c.RX, c.RY, c.NegX, c.NegY)
